@@ -36,13 +36,19 @@ vars == <<ph, shape, v, call, out>>
 (***************************************************************************)
 (* shapes                                                                   *)
 (***************************************************************************)
-Sh(k, bs, n, ins, parts) == [k |-> k, bs |-> bs, n |-> n, ins |-> ins, junk |-> 0, parts |-> parts]
+Sh(k, bs, n, ins, parts) == [k |-> k, bs |-> bs, n |-> n, ins |-> ins, junk |-> 0, parts |-> parts, off |-> 0, pn |-> 0, sib |-> -1]
 D(n)          == Sh("dense", 1, n, <<>>, <<>>)
 B(bs, n)      == Sh("blocked", bs, n, <<>>, <<>>)
 \* sparse kinds carry their WRITE HISTORY: ins = the 0-based indices in the order they are written through
 \* operator()(index, value); an index written again is an overwrite, every superseded write stores `junk`
 S(n, ins, junk) == [Sh("sparse", 1, n, ins, <<>>) EXCEPT !.junk = junk]
 SB(bs, n, ins, junk) == [Sh("sblocked", bs, n, ins, <<>>) EXCEPT !.junk = junk]
+\* ranged views DenseVector(src, n, off) / DenseVectorBlocked<bs>(src, n, off): a vector of n (blocks) whose memory is
+\* the window [off, off+n) of a parent vector of pn (blocks).  Every slot is a view of its own parent; with sib >= 0
+\* slot 2 is instead a second view of slot 1's parent, over the disjoint window [sib, sib+n)
+DV(n, off, pn, sib)     == [Sh("dview", 1, n, <<>>, <<>>) EXCEPT !.off = off, !.pn = pn, !.sib = sib]
+BV(bs, n, off, pn, sib) == [Sh("bview", bs, n, <<>>, <<>>) EXCEPT !.off = off, !.pn = pn, !.sib = sib]
+IsView(sh) == sh.k \in {"dview", "bview"}
 T(parts)      == Sh("tuple", 1, 0, <<>>, parts)
 P(parts)      == Sh("power", 1, 0, <<>>, parts)      \* all parts have the same type (lengths may differ)
 
@@ -87,6 +93,10 @@ Shapes ==
          {P(<<D(a), D(b), D(2)>>) : a, b \in 0..MaxLen} \cup
          {P(<<B(2, a), B(2, b)>>) : a, b \in 0..MaxLen} \cup
          {P(<<T(<<D(a), B(2, 1)>>), T(<<D(1), B(2, b)>>)>>) : a, b \in 0..MaxLen}
+    [] Family = "view"    ->
+         LET Sibs(n, off, pn) == {-1} \cup {sb \in 0..(pn - n) : n > 0 /\ (sb + n <= off \/ off + n <= sb)} IN
+         UNION {UNION {UNION {{DV(n, off, pn, sb) : sb \in Sibs(n, off, pn)} : n \in 1..(pn - off)} : off \in 0..pn} : pn \in 1..MaxLen} \cup
+         UNION {UNION {UNION {UNION {{BV(bs, n, off, pn, sb) : sb \in Sibs(n, off, pn)} : n \in 0..(pn - off)} : off \in 0..pn} : pn \in 1..MaxLen} : bs \in 1..3}
     [] Family = "sparse"  -> UNION {UNION {UNION {{S(n, o, jk) : jk \in Junks(o)} : o \in Orders(Ix)} : Ix \in SUBSET (0..(n-1))} : n \in 0..MaxLen}
     [] Family = "sblocked" -> UNION {UNION {UNION {UNION {{SB(bs, n, o, jk) : jk \in Junks(o)} : o \in Orders(Ix)} : Ix \in SUBSET (0..(n-1))} : n \in 0..MaxLen} : bs \in 1..3}
 
@@ -109,7 +119,12 @@ FlatOfWrites(len, bs, w) == [p \in 1..len |->
                    LET e == (p - 1) \div bs  j == ((p - 1) % bs) + 1
                        Q == {q \in 1..Len(w) : w[q].i = e}
                    IN IF Q = {} THEN 0 ELSE w[CHOOSE q \in Q : \A r \in Q : r <= q].val[j]]
+\* parents of the views and the window of a flat vector
+Parent(sh, s) == [i \in 1..(sh.pn * sh.bs) |-> PVal(s, i)]
+Window(x, from, len) == [i \in 1..len |-> x[from + i]]
 SlotVec(sh, s) == IF sh.k \in {"sparse", "sblocked"} THEN FlatOfWrites(FlatLen(sh), sh.bs, Writes(sh, s))
+                  ELSE IF IsView(sh) THEN (IF s = 2 /\ sh.sib >= 0 THEN Window(Parent(sh, 1), sh.sib * sh.bs, sh.n * sh.bs)
+                                           ELSE Window(Parent(sh, s), sh.off * sh.bs, sh.n * sh.bs))
                   ELSE [i \in 1..FlatLen(sh) |-> PVal(s, i)]
 
 Alphas == {<<0, 1>>, <<1, 1>>, <<-1, 1>>, <<2, 1>>, <<-1, 2>>, <<-5, 2>>}
@@ -120,23 +135,26 @@ Lim == 16777216        \* 2^24: below it every integer is a float
 (***************************************************************************)
 (* state machine                                                            *)
 (***************************************************************************)
-NoCall == [op |-> "none", x |-> 0, y |-> 0, an |-> 0, ad |-> 1, blk |-> 0]
-NoOut  == [post |-> <<>>, wden |-> 1, res |-> <<>>, rden |-> 1, rkind |-> "none", aux |-> <<>>, auxpost |-> <<>>, mag |-> 0]
+NoCall == [op |-> "none", x |-> 0, y |-> 0, an |-> 0, ad |-> 1, blk |-> 0, twin |-> FALSE]
+NoOut  == [post |-> <<>>, wden |-> 1, res |-> <<>>, rden |-> 1, rkind |-> "none", aux |-> <<>>, auxpost |-> <<>>, mag |-> 0, pp |-> <<>>]
 
 Init ==
   /\ ph = "init"
   /\ \E sh \in Shapes : shape = sh /\ v = <<SlotVec(sh, 1), SlotVec(sh, 2), SlotVec(sh, 3)>>
   /\ call = NoCall /\ out = NoOut
 
-Fin(c, o) == ph' = "done" /\ call' = c /\ out' = o /\ UNCHANGED <<shape, v>>
-Call(op, x, y, an, ad) == [op |-> op, x |-> x, y |-> y, an |-> an, ad |-> ad, blk |-> 0]
+\* views: an operand that names slot 1 is either the receiver object itself or (twin) a second view object over the
+\* same window of the same parent -- two objects, one memory
+Fin(c, o) == /\ ph' = "done" /\ out' = o /\ UNCHANGED <<shape, v>>
+             /\ \E tw \in (IF Family = "view" /\ (c.x = 1 \/ c.y = 1) /\ c.op \notin {"p_scale", "p_axpy"} THEN BOOLEAN ELSE {FALSE}) : call' = [c EXCEPT !.twin = tw]
+Call(op, x, y, an, ad) == [op |-> op, x |-> x, y |-> y, an |-> an, ad |-> ad, blk |-> 0, twin |-> FALSE]
 \* slot 1 := w (scaled by wden); magnitude = largest |scaled entry|
 Wr(w, wden) == [NoOut EXCEPT !.post = <<w, v[2], v[3]>>, !.wden = wden,
                              !.mag = IF Len(w) = 0 THEN 0 ELSE MaxSeq(AbsVec(w))]
 \* scalar result(s)
 Rs(res, kind, mag) == [NoOut EXCEPT !.post = v, !.res = res, !.rkind = kind, !.mag = mag]
 
-Generic == Family \in {"dense", "blocked", "tuple", "power"}
+Generic == Family \in {"dense", "blocked", "tuple", "power", "view"}
 Pairs == {<<2, 3>>, <<1, 2>>, <<2, 1>>, <<2, 2>>, <<1, 1>>}     \* (x,y): no alias, r==x, r==y, x==y, all equal
 
 \* r += alpha x
@@ -186,8 +204,8 @@ FormatOp == /\ ph = "init" /\ Generic
 AV == <<2, -1, 0, -5>>
 Comp(x, bs, j) == [i \in 1..(Len(x) \div bs) |-> x[(i-1) * bs + j]]
 JOf(bs, i) == ((i - 1) % bs) + 1
-BlkCall(op, x, y, blk) == [op |-> op, x |-> x, y |-> y, an |-> 0, ad |-> 2, blk |-> blk]
-IsB == Family = "blocked"
+BlkCall(op, x, y, blk) == [op |-> op, x |-> x, y |-> y, an |-> 0, ad |-> 2, blk |-> blk, twin |-> FALSE]
+IsB == Family = "blocked" \/ (Family = "view" /\ shape.k = "bview")
 AxpyBlockedOp == /\ ph = "init" /\ IsB
                  /\ \E x \in {1, 2} : Fin(BlkCall("axpy_blocked", x, 0, 0),
                         Wr([i \in 1..Len(v[1]) |-> 2 * v[1][i] + AV[JOf(shape.bs, i)] * v[x][i]], 2))
@@ -254,7 +272,31 @@ SMaxMinOp == /\ ph = "init" /\ IsS /\ Stored(shape) # {}
                   IN /\ f(v[1]) = f(StoredVals)
                      /\ Fin(Call(op, 0, 0, 1, 1), Rs(<<f(v[1])>>, "exact", 0))
 
-Next == AxpyOp \/ ScaleOp \/ CompProdOp \/ CompInvOp \/ DotOp \/ TripleDotOp \/ Norm2Op \/ MaxMinOp \/ CopyOp \/ FormatOp
+(***************************************************************************)
+(* ranged views: besides every operation above applied to the views, the    *)
+(* same operations applied to the PARENT of slot 1 (the view then shows the *)
+(* window of the new parent), and a deep clone of a view (an independent    *)
+(* vector with the contents of the view).                                   *)
+(***************************************************************************)
+IsV == Family = "view"
+PWr(pnew, wden) == [Wr(Window(pnew, shape.off * shape.bs, shape.n * shape.bs), wden) EXCEPT !.pp = pnew,
+                       !.mag = IF Len(pnew) = 0 THEN 0 ELSE MaxSeq(AbsVec(pnew))]
+ParentOp == /\ ph = "init" /\ IsV /\ shape.sib = -1
+            /\ \E al \in {<<2, 1>>, <<-5, 2>>} :
+                 \/ Fin(Call("p_format", 0, 0, al[1], al[2]), PWr([i \in 1..(shape.pn * shape.bs) |-> al[1]], al[2]))
+                 \/ \E x \in {1, 2} : Fin(Call("p_scale", x, 0, al[1], al[2]), PWr(Scale(al[1], Parent(shape, x)), al[2]))
+                 \/ \E x \in {1, 2} : Fin(Call("p_axpy", x, 0, al[1], al[2]), PWr(Axpy(al[1], Parent(shape, x), Scale(al[2], Parent(shape, 1))), al[2]))
+                 \/ (al = <<2, 1>> /\ Fin(Call("p_copy", 2, 0, 1, 1), PWr(Parent(shape, 2), 1)))
+CloneOp == /\ ph = "init" /\ IsV
+           /\ Fin(Call("clone_deep", 0, 0, 1, 1), [Wr(v[1], 1) EXCEPT !.auxpost = v[1]])
+\* the parents after the call (parent 1 scaled by wden like slot 1)
+PPost(s) == IF s = 1 THEN (IF out.pp # <<>> THEN out.pp
+                           ELSE [i \in 1..(shape.pn * shape.bs) |->
+                                   IF i > shape.off * shape.bs /\ i <= (shape.off + shape.n) * shape.bs
+                                   THEN out.post[1][i - shape.off * shape.bs] ELSE out.wden * Parent(shape, 1)[i]])
+            ELSE Parent(shape, s)
+
+Next == ParentOp \/ CloneOp \/ AxpyOp \/ ScaleOp \/ CompProdOp \/ CompInvOp \/ DotOp \/ TripleDotOp \/ Norm2Op \/ MaxMinOp \/ CopyOp \/ FormatOp
         \/ AxpyBlockedOp \/ ScaleBlockedOp \/ DotBlockedOp \/ TripleDotBlockedOp \/ Norm2BlockedOp \/ MaxMinBlockedOp \/ CompCopyOp \/ DenseCopyOp
         \/ SBuildOp \/ SFormatOp \/ SMaxMinOp
 Spec == Init /\ [][Next]_vars
@@ -279,6 +321,13 @@ AliasLaws == ph = "done" =>
 \* last-write-wins: the contents of a sparse vector do not depend on the superseded writes or the write order
 HistoryLaw == IsS => /\ v[1] = [i \in 1..FlatLen(shape) |-> IF i \in Stored(shape) THEN PVal(1, i) ELSE 0]
                      /\ \A q \in 1..Len(shape.ins) : ~IsLastWrite(shape, q) => \A j \in 1..shape.bs : Writes(shape, 1)[q].val[j] = shape.junk
+\* a view and its parent are one memory: after every call the view shows the window of its parent, a call on a view
+\* leaves the parent unchanged outside the window (in particular inside a disjoint sibling window)
+ViewLaw == ph = "done" /\ IsV =>
+  /\ Window(PPost(1), shape.off * shape.bs, shape.n * shape.bs) = out.post[1]
+  /\ (out.pp = <<>> => \A i \in 1..(shape.pn * shape.bs) :
+         (i <= shape.off * shape.bs \/ i > (shape.off + shape.n) * shape.bs) => PPost(1)[i] = out.wden * Parent(shape, 1)[i])
+  /\ (shape.sib >= 0 => Window(PPost(1), shape.sib * shape.bs, shape.n * shape.bs) = Scale(out.wden, out.post[2]))
 \* first/rest recursion of the composed vectors: reductions are sums / extrema over the leaves
 Seg(x, from, len) == [i \in 1..len |-> x[from + i - 1]]
 LeafOff(k) == SumSeq([q \in 1..(k-1) |-> LeafLens(shape)[q]])
@@ -308,5 +357,7 @@ Emit == ph = "done" =>
                  op |-> call.op, x |-> call.x, y |-> call.y, an |-> call.an, ad |-> call.ad, blk |-> call.blk, av |-> AV,
                  pre |-> v, post |-> out.post, wden |-> out.wden, res |-> out.res, rden |-> out.rden, rkind |-> out.rkind,
                  aux |-> out.aux, auxpost |-> out.auxpost,
-                 writes |-> IF IsS THEN Writes(shape, 1) ELSE <<>>]))
+                 writes |-> IF IsS THEN Writes(shape, 1) ELSE <<>>, twin |-> call.twin,
+                 ppre |-> IF IsV THEN <<Parent(shape, 1), Parent(shape, 2), Parent(shape, 3)>> ELSE <<>>,
+                 ppost |-> IF IsV THEN <<PPost(1), PPost(2), PPost(3)>> ELSE <<>>]))
 =============================================================================
